@@ -8,6 +8,8 @@ package main
 import (
 	"encoding/json"
 	"fmt"
+	servertypes "github.com/cosmos/cosmos-sdk/server/types"
+	"github.com/cosmos/cosmos-sdk/types/module"
 	"reflect"
 	"time"
 
@@ -49,6 +51,13 @@ func (w *World) ExportImport() (res J, nw *World) {
 				err = fmt.Errorf("export panic: %v", r)
 			}
 		}()
+		// the SDK exports the modules in goroutines of their own, where a panic cannot be recovered: the four custom
+		// modules are exported once here first, so that a panicking export is an observation and not a crash
+		for _, name := range customSections {
+			if m, ok := w.App.ModuleManager.Modules[name].(module.HasGenesis); ok {
+				m.ExportGenesis(w.Ctx(), w.App.AppCodec())
+			}
+		}
 		x, err := w.App.ExportAppStateAndValidators(false, nil, nil)
 		if err != nil {
 			return e, err
@@ -63,7 +72,7 @@ func (w *World) ExportImport() (res J, nw *World) {
 	res["exportOk"] = true
 
 	n := &World{Gen: w.Gen, Accts: w.Accts, ByAddr: w.ByAddr, Names: w.Names, ValSet: w.ValSet, opts: w.opts,
-		EntAddr: w.EntAddr, StreamAddr: w.StreamAddr, FeeAddr: w.FeeAddr, DistrAddr: w.DistrAddr, GovAddr: w.GovAddr}
+		EntAddr: w.EntAddr, StreamAddr: w.StreamAddr, FeeAddr: w.FeeAddr, DistrAddr: w.DistrAddr, GovAddr: w.GovAddr, GrpAddr: w.GrpAddr}
 	n.Gen.DB = ""
 	n.DB = dbm.NewMemDB()
 	n.App = n.newApp(n.DB)
@@ -110,7 +119,21 @@ func (w *World) ExportImport() (res J, nw *World) {
 	}()
 	res["invOk"] = invOk
 	// export again: the four custom sections must be identical documents
-	x2, err := n.App.ExportAppStateAndValidators(false, nil, nil)
+	var x2 servertypes.ExportedApp
+	err = func() (err error) {
+		defer func() {
+			if r := recover(); r != nil {
+				err = fmt.Errorf("second export panic: %v", r)
+			}
+		}()
+		for _, name := range customSections {
+			if m, ok := n.App.ModuleManager.Modules[name].(module.HasGenesis); ok {
+				m.ExportGenesis(n.Ctx(), n.App.AppCodec())
+			}
+		}
+		x2, err = n.App.ExportAppStateAndValidators(false, nil, nil)
+		return err
+	}()
 	if err == nil {
 		s1, e1 := sectionsOf(exp.AppState)
 		s2, e2 := sectionsOf(x2.AppState)
